@@ -19,7 +19,7 @@ from core.guards import TRUE, atom, atoms_of, f_or, implies
 from core.loader import AnalysisError, ClassInfo, FuncInfo, Repo, ancestors, calls_in, norm, own_nodes, parent
 from core.report import Result
 
-from .c05_views import all_nodes, assignments_of, dview, key_of, productions, single_value, where_of
+from .c05_views import family, all_nodes, assignments_of, dview, key_of, productions, single_value, where_of
 from .common import conds, dotted, guard_formula, stmt_of, types_of, where
 
 MATCHER = "pytestarch.rule_assessment.rule_check.rule_matcher"
@@ -72,7 +72,7 @@ def check_layer_mapping_update(repo: Repo, res: Result) -> None:
                 factory = factory or m
     if factory is None:
         raise AnalysisError("LayerRuleMatcher: no method constructs a LayerRuleViolationDetector (anchor of C05.R2 vanished)")
-    view = dview(repo, factory, lm, lambda a, b: b.cls is not None and b.cls.fq in lm_mro, tag="lm")
+    view = dview(repo, factory, lm, family(repo, lm), tag="lm")
     ctors = _ctor_calls(repo, T, view, det.fq, list(all_nodes(view)))
     if len(ctors) != 1:
         raise AnalysisError(f"{factory.fq}: {len(ctors)} constructions of LayerRuleViolationDetector in the inlined view (expected one)")
@@ -147,10 +147,10 @@ def check_layer_mapping_update(repo: Repo, res: Result) -> None:
             return {"MAP", "TOTAL"} if call.func.id == "defaultdict" else {"MAP"}
         return None
 
-    flow = Flow(repo, T, Spec(transfer=transfer, param_seeds=seeds, iter_map={"MAP": "", "TOTAL": ""}, objects_carry=False, scope=lambda f: f.module.name == MATCHER))
+    flow = Flow(repo, T, Spec(transfer=transfer, param_seeds=seeds, iter_map={"MAP": "", "TOTAL": ""}, objects_carry=False, scope=lambda f: f.module.name.startswith(("pytestarch.rule_assessment", "pytestarch.eval_structure.utils", "pytestarch.utils"))))
     n = 0
-    for f in repo.module(MATCHER).all_funcs:
-        if isinstance(f.node, ast.Lambda):
+    for f in repo.all_functions():
+        if isinstance(f.node, ast.Lambda) or not f.module.name.startswith(("pytestarch.rule_assessment", "pytestarch.eval_structure.utils", "pytestarch.utils")):
             continue
         for node in own_nodes(f.node):
             if isinstance(node, ast.Subscript) and isinstance(node.ctx, ast.Load) and "MAP" in flow.tags(node.value):
@@ -197,7 +197,7 @@ def check_regex_resolution_per_evaluation(repo: Repo, res: Result) -> None:
     rule_mro = {c.fq for c in repo.mro(rule)}
     lm_mro = {c.fq for c in repo.mro(lm)}
     # (a) is the matcher that judges built for this evaluation?
-    va = dview(repo, aa, rule, lambda a, b: b.cls is not None and b.cls.fq in rule_mro, tag="rule")
+    va = dview(repo, aa, rule, family(repo, rule), tag="rule")
     mcalls = [n for n in all_nodes(va) if isinstance(n, ast.Call) and isinstance(n.func, ast.Attribute) and n.func.attr == "match"]
     fresh = None
     why_a = ""
@@ -207,15 +207,15 @@ def check_regex_resolution_per_evaluation(repo: Repo, res: Result) -> None:
         if isinstance(recv, ast.Name):
             asg = assignments_of(va, recv.id)
             cases = asg or []
-        if isinstance(recv, ast.Name) and cases and all(_is_matcher_construction(v) for _s, v in cases):
+        if isinstance(recv, ast.Name) and cases and all(_is_matcher_construction(v, repo, T, va) for _s, v in cases):
             fresh = True
-        elif isinstance(recv, ast.Call) and _is_matcher_construction(recv):
+        elif isinstance(recv, ast.Call) and _is_matcher_construction(recv, repo, T, va):
             fresh = True
         elif isinstance(recv, ast.Attribute) or (isinstance(recv, ast.Name) and cases and any(isinstance(single_value(va, v), ast.Attribute) for _s, v in cases)):
             fresh = False
             why_a = f"Rule.assert_applies evaluates with the stored matcher `{norm(recv, 40)}`"
     # (b) does every match() resolve the regexes against its evaluable?
-    vm = dview(repo, match, lm, lambda a, b: b.cls is not None and b.cls.fq in lm_mro, tag="lm")
+    vm = dview(repo, match, lm, family(repo, lm), tag="lm")
     ev = match.param_names[1] if len(match.param_names) > 1 else None
     convs = []
     for n in all_nodes(vm):
@@ -253,10 +253,20 @@ def check_regex_resolution_per_evaluation(repo: Repo, res: Result) -> None:
         res.undecide("C05.R7", construct, f"`{norm(c, 60)}` depends on matcher state ({', '.join(atoms_)}) and it could not be established whether Rule.assert_applies builds a new matcher per evaluation", where_of(vm, c))
 
 
-def _is_matcher_construction(v: ast.expr) -> bool:
+def _is_matcher_construction(v: ast.expr, repo: Repo | None = None, T=None, view: FuncInfo | None = None) -> bool:
     """A call of the configured matcher class / factory (`self._rule_matcher_class(...)`, `XMatcher(...)`)."""
     if not isinstance(v, ast.Call):
         return False
+    if repo is not None and T is not None and view is not None:
+        src = getattr(v, "_src", None)
+        ctx, orig = src if src is not None else (view, v)
+        try:
+            cs, _how = T.callees(ctx, orig, byname_fallback=False)
+        except Exception:  # noqa: BLE001
+            cs = []
+        rm = repo.classes.get(f"{MATCHER}.RuleMatcher")
+        if rm is not None and any(c.name == "__init__" and c.cls is not None and repo.is_subclass(c.cls, rm.fq) for c in cs):
+            return True
     f = v.func
     if isinstance(f, ast.Attribute) and isinstance(f.value, ast.Name) and f.value.id == "self" and ("matcher" in f.attr.lower()) and ("class" in f.attr.lower() or "factory" in f.attr.lower() or "cls" in f.attr.lower()):
         return True
